@@ -5,7 +5,16 @@ For every type graph, every state reachable by any number of steps of any number
 schedule — an entry `True` of the memo is a node that reaches itself: `RecMethod` (lazy compilation) is only ever introduced for a type that is
 recursive.  The proof is an invariant of `step` (`LSound`, `CSound`): the guard of a checker is a path of the graph, the keys it has recorded
 and the writes it has pending lie on cycles.  The converse (`False` ⇒ on no cycle — the direction whose failure is row 96) is *not* proved; it
-is decided on generated graphs by the correspondence and the reference closure (`rec_graph.py`). -/
+is decided on generated graphs by the correspondence and the reference closure (`rec_graph.py`).
+
+Plan for the converse (one checker, started on a memo that is exact and closed under children), not yet carried out.  With `cachedE x` := `x` in the
+memo or among the pending writes, `G` the guard, `Pend y` := `y` recorded under a head that is still on `G`:
+(1) no node of `G` is `cachedE`, `G` has no duplicate;  (2) *closure*: every child of a `cachedE` node is `cachedE`;
+(3) *frames*: a visited child of a frame's node is `cachedE`, on `G`, or `Pend`; if it is on `G` at or below the frame, the frame's node is recorded under it;
+(4) recorded keys reach, and are reached by, their head (the `Reach` facts behind `seg_onCycle`);
+(5) at a root exit (no outer key of `G` has recorded the head) the children of the written set are written or `cachedE` - the step that needs the
+    re-exploration argument: a `Pend` child is descended again and re-discovers a path to `G`, because by (2) no node on its former path can have been cached;
+(6) a `False` write for `n` then has every child `cachedE`, so by (2) `n`, which by (1) was not `cachedE`, is reachable from none of them: `n` is on no cycle. -/
 namespace Api.Rec
 
 def Edge (g : Graph) (a b : Node) : Prop := b ∈ children g a
